@@ -9,6 +9,10 @@ from rules import common
 from rules.C07 import _key_is, iter_source, block_of
 
 EXPLANATION = (
+    "Typestate analysis of compile() (rule C19.T1): the statements of compile() are interpreted over an abstract "
+    "state that tracks one arbitrary module through every local map, with every component call returning or raising "
+    "any package error class, every option setting and every iteration order; invariants are evaluated at the "
+    "component calls and at every return (see rules/compile_ts.py INV). "
     "Rules on the two borrow stages of compile() and on AbstractBorrower.getData: the borrowed map is filled only "
     "inside the loop over a snapshot of the FAILED map, from the result of a successful borrower.getData(name, "
     "genTexts=options.get('genTexts')) on the borrowers in order, followed by removal from FAILED and `break`; the "
@@ -18,7 +22,7 @@ EXPLANATION = (
     "list of the borrower is injected into the reader call.")
 ASSUMPTIONS = ["contents served by borrower readers are runtime data",
                "FAILED holds exactly the modules that could not be found or compiled (C07.R5, C09.R3)"]
-TECHNIQUE = 'AST/CFG rules: provenance of the borrowed text, dominance of the flavour test, guard-set membership'
+TECHNIQUE = 'AST/CFG rules: provenance of the borrowed text, dominance of the flavour test, guard-set membership; typestate abstract interpretation of compile() (path-sensitive dataflow over a finite per-module domain, rules/compile_ts.py)'
 
 
 def borrow_get(r):
@@ -363,5 +367,13 @@ def r9_wellformedness(chk):
 
 
 
+
+def t1_typestate(chk):
+    """typestate analysis of compile() (rules/compile_ts.py): end-to-end bookkeeping invariants for an arbitrary
+    module over every outcome of every component call"""
+    from rules import compile_ts
+    compile_ts.ts_rule(chk, 'C19.T1', ['borrow-failed-only', 'borrow-eligible', 'borrow-status', 'verbatim', 'own-key'])
+
+
 RULES = [r1_borrow_loop, r2_hand_over, r3_flavour, r4_requested_stay_eligible, r5_failed_map_consistency, r6_argument_agreement,
-         r7_borrower_order_is_fixed, r8_borrowed_status_survives_the_write, r9_wellformedness]
+         r7_borrower_order_is_fixed, r8_borrowed_status_survives_the_write, r9_wellformedness, t1_typestate]
